@@ -225,27 +225,38 @@ def gen_lean():
                     masked = sorted(_bt(e, bt) for e in c.args[1].elts)
     if masked is None:
         raise ValueError("np.isin(..., (BondType...)) mask not found in _set_inter_residue_bonds")
-    # _filter_canonical_links: the returned expression must be a pure `&` chain (no comparison at the top)
+    # _filter_canonical_links: the returned expression must be a pure `&` chain (no comparison at the top) whose
+    # first term is `is_peptide_link | is_nucleotide_link`; each of the two is an `&` chain of two np.isin(<list>)
+    # tests and two atom-name comparisons
     canon_shape = None
-    canon_atoms = []
+    canon_kinds = []
     for n in ast.walk(tree):
         if isinstance(n, ast.FunctionDef) and n.name == "_filter_canonical_links":
             ret = [c for c in ast.walk(n) if isinstance(c, ast.Return)][-1].value
-            terms = []
 
-            def flat(e):
+            def flat(e, out):
                 if isinstance(e, ast.BinOp) and isinstance(e.op, ast.BitAnd):
-                    flat(e.left)
-                    flat(e.right)
+                    flat(e.left, out)
+                    flat(e.right, out)
                 else:
-                    terms.append(e)
-            flat(ret)
-            canon_shape = "and-chain" if isinstance(ret, ast.BinOp) else type(ret).__name__
-            for t in terms:
-                if isinstance(t, ast.Call) and getattr(t.func, "attr", None) == "isin" and isinstance(t.args[1], ast.Tuple):
-                    canon_atoms.append([e.value for e in t.args[1].elts])
+                    out.append(e)
+                return out
+            terms = flat(ret, [])
+            canon_shape = "and-chain" if isinstance(ret, ast.BinOp) and isinstance(ret.op, ast.BitAnd) else type(ret).__name__
             n_terms = len(terms)
             n_cmp = sum(1 for t in terms if isinstance(t, ast.Compare))
+            first = terms[0]
+            if not (isinstance(first, ast.BinOp) and isinstance(first.op, ast.BitOr)
+                    and isinstance(first.left, ast.Name) and isinstance(first.right, ast.Name)):
+                raise ValueError("_filter_canonical_links: first term is not `<name> | <name>`")
+            assigned = {a.targets[0].id: a.value for a in ast.walk(n) if isinstance(a, ast.Assign) and isinstance(a.targets[0], ast.Name)}
+            for nm in (first.left.id, first.right.id):
+                parts = flat(assigned[nm], [])
+                lists = [p.args[1].id for p in parts if isinstance(p, ast.Call) and getattr(p.func, "attr", None) == "isin" and isinstance(p.args[1], ast.Name)]
+                consts = [p.comparators[0].value for p in parts if isinstance(p, ast.Compare) and isinstance(p.comparators[0], ast.Constant)]
+                if len(parts) != 4 or len(lists) != 2 or len(set(lists)) != 1 or len(consts) != 2:
+                    raise ValueError(f"_filter_canonical_links: unexpected shape of {nm}")
+                canon_kinds.append((lists[0], consts[0], consts[1]))
     if canon_shape is None:
         raise ValueError("_filter_canonical_links not found")
     fsrc = open(os.path.join(base, "filter.py")).read()
@@ -278,7 +289,8 @@ def gen_lean():
         "def orderToType : List (String × Nat) := " + pairs(order_to_type, lambda kv: f"({_lstr(kv[0])}, {kv[1]})"),
         "def orderMasked : List Nat := " + pairs(masked, str),
         "def compOrderToType : List ((String × String) × Nat) := " + pairs(comp, lambda kv: f"(({_lstr(kv[0][0])}, {_lstr(kv[0][1])}), {kv[1]})"),
-        "def canonicalResidues : List String := " + pairs(lists["_canonical_aa_list"] + lists["_canonical_nucleotide_list"], _lstr),
+        "def canonicalAA : List String := " + pairs(lists["_canonical_aa_list"], _lstr),
+        "def canonicalNuc : List String := " + pairs(lists["_canonical_nucleotide_list"], _lstr),
         "def peptideLinks : List String := " + pairs(links["_PEPTIDE_LINKS"], _lstr),
         "def nucleicLinks : List String := " + pairs(links["_NUCLEIC_LINKS"], _lstr),
         "def noAltloc : List String := " + pairs(no_alt, _lstr),
@@ -286,7 +298,8 @@ def gen_lean():
         f"def canonShape : String := {_lstr(canon_shape)}",
         f"def canonTerms : Nat := {n_terms}",
         f"def canonCompareTerms : Nat := {n_cmp}",
-        "def canonAtomNames : List (List String) := " + pairs(canon_atoms, lambda xs: pairs(xs, _lstr)),
+        "/-- (residue list, first atom, second atom) of `is_peptide_link` and `is_nucleotide_link` -/",
+        "def canonKinds : List (String × String × String) := " + pairs(canon_kinds, lambda k: f"({_lstr(k[0])}, {_lstr(k[1])}, {_lstr(k[2])})"),
         f"def altlocUsesIsalpha : Bool := {'true' if uses_isalpha else 'false'}",
         "end BiotiteModel.Gen.C04", ""]
     return {"BiotiteModel/Gen/C04.lean": "\n".join(body)}
@@ -642,7 +655,7 @@ def gen_spec(rng, flavour="valid"):
         # re-create (numbering gap, chain border, non-polymer partner) must be written to struct_conn
         for r in range(len(st) - 2):
             if rng.random() < 0.35:
-                n1, n2 = rng.choice([("C", "N"), ("O3'", "P")])
+                n1, n2 = rng.choice([("C", "N"), ("O3'", "P"), ("C", "P"), ("O3'", "N")])
                 i = next((k for k in range(st[r], st[r + 1]) if atoms[k][5] == n1), None)
                 j = next((k for k in range(st[r + 1], st[r + 2]) if atoms[k][5] == n2), None)
                 if i is not None and j is not None and (i, j) not in bonds:
@@ -850,17 +863,24 @@ def gen_models_case(rng):
         i, j = rng.sample(range(1, m), 2)
         lens[i] -= 1
         lens[j] += 1
-    rows = []
-    idn = 1
-    for k in range(m):
-        for a in range(lens[k]):
-            rows.append(_site_row("ATOM" if a % 2 == 0 else "HETATM", "C", f"C{a}", ".", "LG1", "A", 1, "", rng.choice(["-", "-"]), idn, nums[k],
-                                  xyz_tok([idn / 4.0, k, a]), None))
-            idn += 1
+    order = [(k, a) for k in range(m) for a in range(lens[k])]
+    interleaved = False
+    if m > 1 and rng.random() < 0.3:
+        # the rows of the models are NOT contiguous (legal in a relational table): 1, 1, 2, 1 / 1, 2, 1, 2 ...
+        # (the first row stays, so that the order of first appearance of the numbers can still vary freely)
+        tail = order[1:]
+        rng.shuffle(tail)
+        order = order[:1] + tail
+        interleaved = any(order[i][0] != order[i + 1][0] and order[i][0] in [o[0] for o in order[i + 1:]] for i in range(len(order) - 1))
+    rows, row_models = [], []
+    for idn, (k, a) in enumerate(order, start=1):
+        rows.append(_site_row("ATOM" if a % 2 == 0 else "HETATM", "C", f"C{a}", ".", "LG1", "A", 1, "", "-", idn, nums[k],
+                              xyz_tok([idn / 4.0, k, a]), None))
+        row_models.append(nums[k])
     ops = [ccd_line(), "site " + ";".join(rows), "conn -", "ccb -", "read all first 0 0 1"]
     for k in sorted({1, m, -1, -m, m + 1, -m - 1, 0, rng.randint(-6, 6)}):
         ops.append(f"read {k} first 0 0 1")
-    return {"kind": "models", "ops": ops, "models": {"nums": nums, "lens": lens}}
+    return {"kind": "models", "ops": ops, "models": {"nums": nums, "lens": lens, "row_models": row_models, "interleaved": interleaved}}
 
 
 def gen_boxes_case(rng):
@@ -990,10 +1010,11 @@ def cases(rng, tier):
     n = 320 if tier == "quick" else 5000
     for k in range(n):
         r = rng.random()
-        if r < 0.34:
+        if r < 0.30:
             yield _struct_case(rng, gen_spec(rng, "valid"))
         elif r < 0.35:
-            yield _struct_case(rng, gen_spec(rng, "valid"))
+            x = rng.random()
+            yield gen_edge_case(rng) if x < 0.45 else gen_hyp_case(rng) if x < 0.9 else gen_symmetry_case(rng)
         elif r < 0.385:
             yield gen_api_case(rng)
         elif r < 0.56:
@@ -1421,6 +1442,150 @@ def _run_impl_inner(case):
     return out
 
 
+# ------------------------------------------------------------------ audit streams: the regions the theorems exclude
+_EDGE_STR = ["", ".", "?", " ", " a", "a ", "a\tb", "x\ny", "''", "\"", "a b"]
+_EDGE_F = [float("nan"), float("inf"), float("-inf"), 1e30, -1e30, 1e-40, -0.0, 0.0, 16777217.0]
+
+
+def gen_edge_case(rng):
+    """Annotation strings and numbers the valid stream filters out: empty string, the CIF placeholders '.' and '?',
+    leading / trailing blanks, tab, newline; NaN, infinities, huge, denormal, -0.0 coordinates / B-factors /
+    occupancies (a fresh AtomArray has '' annotations and NaN coordinates).  No bonds (the bond paths need names)."""
+    n_res = rng.randint(1, 2)
+    atoms = []
+    for r in range(n_res):
+        names = rng.sample(["X1", "X2", "X3"] + _EDGE_STR, rng.randint(1, 3))
+        rn = rng.choice(["LG1"] + _EDGE_STR)
+        ch = rng.choice(["A"] + _EDGE_STR)
+        ins = rng.choice(["", "", ".", "?", " ", "a", "\t"])
+        for an in names:
+            atoms.append([ch, r + 1, ins, rn, rng.random() < 0.5, an, rng.choice(["C"] + _EDGE_STR), 0, 0])
+    n = len(atoms)
+    m = rng.choice([1, 1, 2])
+
+    def fl():
+        return rng.choice(_EDGE_F) if rng.random() < 0.5 else rng.randint(-9999, 9999) / 8.0
+    coords = [[xyz_tok([fl(), fl(), fl()]) for _ in range(n)] for _ in range(m)]
+    spec = {"atoms": atoms, "stack": m > 1 or rng.random() < 0.3, "coords": coords, "box": None, "bonds": None,
+            "layout": rng.choice(["C", "F"]), "has_charge": False, "has_atom_id": False,
+            "b_factor": [fl() for _ in range(n)] if rng.random() < 0.6 else None,
+            "occupancy": [fl() for _ in range(n)] if rng.random() < 0.4 else None,
+            "extra": {"my_field": [rng.choice(_EDGE_STR + ["q"]) for _ in range(n)]} if rng.random() < 0.5 else {}}
+    return _struct_case(rng, spec, "struct-edge")
+
+
+def gen_hyp_case(rng):
+    """Structures just outside one hypothesis of C04_stack_roundtrip (WFS); `hyp` names the hypothesis that is broken and
+    the oracle demands exactly the documented outcome there (a refusal, or the known limitation of the format)."""
+    hyp = rng.choice(["inconsistent-components", "no-intra-bonds", "missing-backbone-link", "ambiguous-atom"])
+    for _ in range(200):
+        spec = gen_spec(rng, "valid")
+        if spec["bonds"] is None or len(spec["atoms"]) > 30:
+            continue
+        atoms, bonds = spec["atoms"], [list(b) for b in spec["bonds"]]
+        st = res_starts(atoms)
+        resof = {k: r for r in range(len(st) - 1) for k in range(st[r], st[r + 1])}
+        intra = [b for b in bonds if resof[b[0]] == resof[b[1]] and b[2] != 8]
+        if hyp == "inconsistent-components":
+            # two residues of one component, the bond between equally named atoms removed (or retyped) in ONE of them
+            cand = []
+            for b in intra:
+                r = resof[b[0]]
+                key = (atoms[b[0]][3], atoms[b[0]][5], atoms[b[1]][5])
+                twins = [c for c in intra if resof[c[0]] != r and (atoms[c[0]][3], atoms[c[0]][5], atoms[c[1]][5]) == key]
+                if twins:
+                    cand.append(b)
+            if not cand:
+                continue
+            victim = rng.choice(cand)
+            if rng.random() < 0.5:
+                bonds.remove(victim)
+            else:
+                bonds[bonds.index(victim)] = [victim[0], victim[1], rng.choice([t for t in (1, 2, 3, 5, 9) if t != victim[2]])]
+        elif hyp == "no-intra-bonds":
+            # a BondList without any chem_comp_bond bond on dictionary residues: the reader falls back to the dictionary
+            if not intra or not any(a[3] in CCD and CCD[a[3]][1] for a in atoms):
+                continue
+            implied = False
+            for r in range(len(st) - 1):
+                rn = atoms[st[r]][3]
+                pos = {atoms[k][5] for k in range(st[r], st[r + 1])}
+                implied = implied or any(a in pos and b in pos for a, b, _o, _f in CCD.get(rn, (None, []))[1])
+            if not implied:
+                continue
+            bonds = [b for b in bonds if b not in intra]
+        elif hyp == "missing-backbone-link":
+            links = backbone_links(atoms)
+            present = [b for b in bonds if (b[0], b[1]) in links or (b[1], b[0]) in links]
+            if not present:
+                continue
+            bonds.remove(rng.choice(present))
+        else:
+            # an atom occurs twice (same chain, residue, name): a struct_conn bond on it cannot be assigned
+            inter = [b for b in bonds if resof[b[0]] != resof[b[1]] and b[2] in INTER_OK
+                     and (b[0], b[1]) not in backbone_links(atoms)]
+            if not inter:
+                continue
+            b = rng.choice(inter)
+            k = b[0]
+            atoms.insert(k + 1, list(atoms[k][:8]) + [max(a[8] for a in atoms) + 1])
+            bonds = [[i + (i > k), j + (j > k), t] for i, j, t in bonds]
+            for fld in ("b_factor", "occupancy"):
+                if spec.get(fld) is not None:
+                    spec[fld].insert(k + 1, spec[fld][k])
+            for name in spec.get("extra") or {}:
+                spec["extra"][name].insert(k + 1, spec["extra"][name][k])
+            spec["coords"] = [c[:k + 1] + [c[k]] + c[k + 1:] for c in spec["coords"]]
+        spec["bonds"] = bonds
+        case = _struct_case(rng, spec, "struct-hyp")
+        case["hyp"] = hyp
+        return case
+    return _struct_case(rng, gen_spec(rng, "valid"))
+
+
+def gen_symmetry_case(rng):
+    """struct_conn rows with symmetry operators (not in the Lean model): only identity / missing operators are bonds."""
+    n = rng.randint(2, 6)
+    rows = []
+    for _ in range(rng.randint(1, 5)):
+        i, j = rng.sample(range(n), 2)
+        rows.append([i, j, rng.choice(["covale", "metalc", "disulf"]), rng.choice(["sing", "doub", "trip"]),
+                     rng.choice(["1_555", "1_555", "2_655", "", "1_556"]), rng.choice(["1_555", "1_555", "3_545", ""])])
+    return {"kind": "symmetry", "ops": [], "n": n, "rows": rows, "which": rng.choice(["both", "ptnr1", "ptnr2"])}
+
+
+def _oracle_symmetry(case):
+    import warnings
+    import numpy as np
+    _setup()
+    from biotite.structure.io import pdbx
+    from biotite.structure.io.pdbx.bcif import BinaryCIFColumn
+    n = case["n"]
+    site = [_site_row("ATOM", "C", f"C{i}", ".", "LG1", "A", 1, "", "-", i + 1, 1, xyz_tok([i, 0, 0]), None) for i in range(n)]
+
+    def k(i):
+        return f"A,LG1,1,C{i},."
+    conn = [f"{r + 1},{tid},{o}/p,{k(i)},{k(j)}" for r, (i, j, tid, o, _s1, _s2) in enumerate(case["rows"])]
+    blk = _hand_block(site, conn, None)
+    for col, idx in (("ptnr1_symmetry", 4), ("ptnr2_symmetry", 5)):
+        if case["which"] in ("both", col[:5]):
+            vals = [r[idx] for r in case["rows"]]
+            blk["struct_conn"][col] = BinaryCIFColumn(np.array([x or "?" for x in vals]), np.array([0 if x else 2 for x in vals], dtype=np.uint8))
+    want = {}
+    order = {"sing": 1, "doub": 2, "trip": 3}
+    for i, j, tid, o, s1, s2 in case["rows"]:
+        ok1 = case["which"] == "ptnr2" or s1 in ("1_555", "")
+        ok2 = case["which"] == "ptnr1" or s2 in ("1_555", "")
+        if ok1 and ok2 and (min(i, j), max(i, j)) not in want:
+            want[(min(i, j), max(i, j))] = 8 if tid == "metalc" else order[o]
+    with warnings.catch_warnings():
+        warnings.simplefilter("ignore")
+        got = {(int(b[0]), int(b[1])): int(b[2]) for b in pdbx.get_structure(blk, model=1, include_bonds=True).bonds.as_array()}
+    if got != want:
+        return [("C04/struct_conn/symmetry-operator", f"rows {case['rows']} ({case['which']}): bonds {got}, expected {want}")]
+    return []
+
+
 # ------------------------------------------------------------------ hardening: public API used like a caller would
 def _small_spec(rng):
     sp = gen_spec(rng, "valid")
@@ -1507,10 +1672,10 @@ def _oracle_api(case):
             put(f, A, sa)
             snap = _file_bytes(f)
             n = A.array_length()
-            bad = [("empty", lambda: pdbx.set_structure(f, struc.AtomArray(0))),
-                   ("not-a-structure", lambda: pdbx.set_structure(f, "abc")),
-                   ("reserved-extra-field", lambda: pdbx.set_structure(f, A, extra_fields=["res_id"])),
-                   ("missing-extra-field", lambda: pdbx.set_structure(f, A, extra_fields=["no_such_annotation"]))]
+            bad = [("empty", lambda: pdbx.set_structure(f, struc.AtomArray(0)), ("BadStructureError",)),
+                   ("not-a-structure", lambda: pdbx.set_structure(f, "abc"), ("ValueError", "TypeError")),
+                   ("reserved-extra-field", lambda: pdbx.set_structure(f, A, extra_fields=["res_id"]), ("ValueError",)),
+                   ("missing-extra-field", lambda: pdbx.set_structure(f, A, extra_fields=["no_such_annotation"]), ("ValueError", "KeyError"))]
             if n >= 2:
                 def empty_name():
                     c = A.copy()
@@ -1522,17 +1687,19 @@ def _oracle_api(case):
                     c = A.copy()
                     c.bonds = struc.BondList(n, np.array([[0, n - 1, 12]]))
                     pdbx.set_structure(f, c, include_bonds=True)
-                bad += [("empty-atom-name", empty_name), ("bond-type-12", bad_type)]
+                bad += [("empty-atom-name", empty_name, ("BadStructureError",)), ("bond-type-12", bad_type, ("KeyError", "ValueError"))]
             before_A = A.copy()
-            for name, call in bad:
+            for name, call, allowed in bad:
                 try:
                     call()
                     v.append((f"C04/api/refused-call/set_structure/{name}/accepted", f"{fmt}: set_structure accepted {name}"))
                     put(f, A, sa)
                     snap = _file_bytes(f)
                     continue
-                except Exception:  # noqa: BLE001
-                    pass
+                except Exception as e:  # noqa: BLE001
+                    if type(e).__name__ not in allowed:
+                        v.append((f"C04/api/refused-call/set_structure/{name}/wrong-exception/{type(e).__name__}",
+                                  f"{fmt}: {name} must be refused with {allowed}, got {type(e).__name__}: {str(e)[:80]}"))
                 if _file_bytes(f) != snap:
                     v.append((f"C04/api/refused-call/set_structure/{name}/file-changed",
                               f"{fmt}: the file changed although set_structure raised for {name}; categories now {list(f.block.keys())}"))
@@ -1550,15 +1717,22 @@ def _oracle_api(case):
                 v.append(("C04/api/refused-call/set_structure/array-changed", f"{fmt}: the structure changed"))
             fields = _extra_fields(sa)
             fields0 = list(fields)
-            for name, kw in (("model-0", {"model": 0}), ("model-too-large", {"model": mA + 1}), ("model-too-negative", {"model": -mA - 1}),
-                             ("altloc-bogus", {"altloc": "bogus"}), ("unknown-block", {"data_block": "no_such_block"}),
-                             ("unknown-extra-field", {"extra_fields": fields + ["no_such_column"]})):
+            for name, kw, allowed in (("model-0", {"model": 0}, ("ValueError",)), ("model-too-large", {"model": mA + 1}, ("ValueError",)),
+                                      ("model-too-negative", {"model": -mA - 1}, ("ValueError",)),
+                                      ("altloc-bogus", {"altloc": "bogus"}, ("ValueError",)),
+                                      ("altloc-occupancy-without-column", {"altloc": "occupancy"}, ("ValueError",) if "occupancy" not in A.get_annotation_categories() else None),
+                                      ("unknown-block", {"data_block": "no_such_block"}, ("KeyError",)),
+                                      ("unknown-extra-field", {"extra_fields": fields + ["no_such_column"]}, ("KeyError",))):
+                if allowed is None:
+                    continue
                 kw2 = dict({"model": 1, "extra_fields": fields}, **kw)
                 try:
                     pdbx.get_structure(f, **kw2)
                     v.append((f"C04/api/refused-call/get_structure/{name}/accepted", f"{fmt}: get_structure accepted {name}"))
-                except Exception:  # noqa: BLE001
-                    pass
+                except Exception as e:  # noqa: BLE001
+                    if type(e).__name__ not in allowed:
+                        v.append((f"C04/api/refused-call/get_structure/{name}/wrong-exception/{type(e).__name__}",
+                                  f"{fmt}: {name} must be refused with {allowed}, got {type(e).__name__}: {str(e)[:80]}"))
                 if _file_bytes(f) != snap or fields != fields0:
                     v.append((f"C04/api/refused-call/get_structure/{name}/changed", f"{fmt}: file or extra_fields changed by a refused get_structure"))
                     fields[:] = fields0
@@ -1943,7 +2117,8 @@ def _compare(spec, arr, back, fmt, want_stack, tag):
         a, b = arr.get_annotation(cat), back.get_annotation(cat)
         if a.dtype.kind == "f":
             b = b.astype(a.dtype)          # a float16/float32 annotation is compared at its own precision
-            same = np.array_equal(a, b) if fmt != "cbcif" else np.allclose(a, b, rtol=max(2e-6, float(np.finfo(a.dtype).eps) * 2), atol=0)
+            same = np.array_equal(a, b, equal_nan=True) if fmt != "cbcif" else \
+                np.allclose(a, b, rtol=max(2e-6, float(np.finfo(a.dtype).eps) * 2), atol=0, equal_nan=True)
         elif cat in (spec.get("extra") or {}):
             a, b = a.astype(str), b.astype(str)      # extra fields are read back as strings
             same = np.array_equal(a, b)
@@ -1956,7 +2131,7 @@ def _compare(spec, arr, back, fmt, want_stack, tag):
     if ca.shape != cb.shape:
         v.append((f"C04/coord/shape/{tag}", f"{fmt}: coord shape {ca.shape} -> {cb.shape}"))
     elif fmt == "cbcif":
-        if not np.allclose(ca, cb, rtol=2e-6, atol=0):
+        if not np.allclose(ca, cb, rtol=2e-6, atol=0, equal_nan=True):
             v.append(("C04/coord/compressed-out-of-tolerance", f"{fmt}: max rel err {np.max(np.abs(ca - cb) / np.maximum(np.abs(ca), 1e-30))}"))
     elif not np.array_equal(ca.view(np.uint32), cb.view(np.uint32)):
         k = np.argwhere(ca.view(np.uint32) != cb.view(np.uint32))[0]
@@ -1985,6 +2160,45 @@ def _compare(spec, arr, back, fmt, want_stack, tag):
 
 
 def _oracle_struct(case):
+    """The write-read oracle, with the outcome the documentation allows in the regions the theorems exclude."""
+    import warnings
+    kind, hyp, spec = case.get("kind"), case.get("hyp"), case["spec"]
+    if kind == "struct-hyp" and hyp == "ambiguous-atom":
+        # an atom that occurs twice cannot be addressed by struct_conn: reading must REFUSE (InvalidFileError),
+        # never pick one of the two silently; writing is still possible
+        _setup()
+        from biotite.file import InvalidFileError
+        v = []
+        with warnings.catch_warnings():
+            warnings.simplefilter("ignore")
+            arr = build_array(spec)
+            for fmt in FORMATS:
+                try:
+                    _roundtrip(arr, fmt, spec, model=None if spec["stack"] else 1)
+                    v.append(("C04/hyp/ambiguous-atom/accepted", f"{fmt}: a struct_conn bond on an atom that occurs twice was assigned silently"))
+                except InvalidFileError:
+                    pass
+                except Exception as e:  # noqa: BLE001
+                    v.append((f"C04/hyp/ambiguous-atom/error/{type(e).__name__}", f"{fmt}: {type(e).__name__}: {str(e)[:100]}"))
+        return v
+    v = _oracle_struct_raw(case)
+    out = []
+    placeholder = kind == "struct-edge" and any(a[2] in (".", "?") for a in spec["atoms"])
+    for key, msg in v:
+        if kind == "struct-hyp":
+            if hyp == "inconsistent-components" and "/bonds/" in key and "/intra/" in key:
+                key = "C04/bonds/intra/inconsistent-components"
+            elif hyp == "no-intra-bonds" and "/intra/" in key and key.endswith("-invented"):
+                key = "C04/bonds/intra/none-written-dictionary-fallback-invents"
+            elif hyp == "missing-backbone-link" and key.endswith("/inter/type1-invented"):
+                key = "C04/bonds/inter/implied-backbone-link-invented"
+        if placeholder and ((key.endswith("/atoms/ins_code") and "cif:" in msg and "cbcif:" not in msg) or key == "C04/formats-differ/cif-vs-bcif"):
+            key = "C04/atoms/ins_code/placeholder-in-cif-text"
+        out.append((key, msg))
+    return out
+
+
+def _oracle_struct_raw(case):
     import warnings
     import numpy as np
     _setup()
@@ -2046,8 +2260,10 @@ def _oracle_struct(case):
         # text == binary (== compressed up to tolerance)
         if "cif" in results and "bcif" in results:
             a, b = results["cif"], results["bcif"]
-            if a.array_length() != b.array_length() or not np.array_equal(a.coord, b.coord) or a.bonds != b.bonds or any(
-                    not np.array_equal(a.get_annotation(c), b.get_annotation(c)) for c in a.get_annotation_categories()):
+            def eq(x, y):
+                return np.array_equal(x, y, equal_nan=True) if x.dtype.kind == "f" else np.array_equal(x, y)
+            if a.array_length() != b.array_length() or not eq(a.coord, b.coord) or a.bonds != b.bonds or any(
+                    not eq(a.get_annotation(c), b.get_annotation(c)) for c in a.get_annotation_categories()):
                 v.append(("C04/formats-differ/cif-vs-bcif", "the text and the binary file decode to different structures"))
         # model selection: every positive and negative index selects exactly that model; others are rejected
         if not expect and spec["stack"]:
@@ -2141,7 +2357,10 @@ def _oracle_models(case):
     info = case["models"]
     site = next(o for o in case["ops"] if o.startswith("site ")).split(" ", 1)[1].split(";")
     m = len(info["nums"])
-    starts = [sum(info["lens"][:k]) for k in range(m + 1)]
+    row_models = info.get("row_models") or [info["nums"][k] for k in range(m) for _ in range(info["lens"][k])]
+    appear = list(dict.fromkeys(row_models))                       # model numbers in order of first appearance
+    contiguous = all(row_models[i] == row_models[i + 1] or row_models[i] not in row_models[i + 1:] for i in range(len(row_models) - 1))
+    counts = [row_models.count(x) for x in appear]
     v = []
     with warnings.catch_warnings():
         warnings.simplefilter("ignore")
@@ -2155,19 +2374,23 @@ def _oracle_models(case):
             except Exception as e:  # noqa: BLE001
                 got = type(e).__name__
             kk = k - 1 if k > 0 else m + k
-            want = list(range(starts[kk] + 1, starts[kk + 1] + 1)) if (k != 0 and 0 <= kk < m) else "rejected"
+            want = [i + 1 for i, x in enumerate(row_models) if x == appear[kk]] if (k != 0 and 0 <= kk < m) else "rejected"
             if got != want:
                 cls = "in-range" if want != "rejected" else ("negative-out-of-range" if k < 0 else "out-of-range")
-                v.append((f"C04/model-select/{cls}", f"models {info['nums']} lengths {info['lens']}: model={k} gave ids {got}, expected {want}"))
+                if not contiguous and want != "rejected":
+                    cls = "interleaved-models"
+                v.append((f"C04/model-select/{cls}", f"model numbers per row {row_models}: model={k} gave ids {got}, expected {want}"))
         try:
             arr = pdbx.get_structure(blk, model=None, extra_fields=["atom_id"])
-            if len(set(info["lens"])) > 1:
-                v.append(("C04/model-select/unequal-lengths-accepted", f"lengths {info['lens']} read as a stack of depth {arr.stack_depth()}"))
-            elif arr.stack_depth() != m or arr.array_length() != info["lens"][0]:
-                v.append(("C04/model-select/stack-shape", f"lengths {info['lens']} read as {arr.stack_depth()}x{arr.array_length()}"))
+            if not contiguous:
+                v.append(("C04/model-select/interleaved-models-accepted", f"model numbers per row {row_models} read as a stack {arr.stack_depth()}x{arr.array_length()}"))
+            elif len(set(counts)) > 1:
+                v.append(("C04/model-select/unequal-lengths-accepted", f"lengths {counts} read as a stack of depth {arr.stack_depth()}"))
+            elif arr.stack_depth() != m or arr.array_length() != counts[0]:
+                v.append(("C04/model-select/stack-shape", f"lengths {counts} read as {arr.stack_depth()}x{arr.array_length()}"))
         except InvalidFileError:
-            if len(set(info["lens"])) == 1:
-                v.append(("C04/model-select/equal-lengths-rejected", f"lengths {info['lens']} rejected"))
+            if contiguous and len(set(counts)) == 1:
+                v.append(("C04/model-select/equal-lengths-rejected", f"lengths {counts} rejected"))
     return v
 
 
@@ -2282,7 +2505,7 @@ def _oracle_dispatch(case):
     k = case.get("kind")
     if k == "api":
         return _oracle_api(case)
-    if k in ("struct", "struct-limit", "struct-strings", "malformed"):
+    if k in ("struct", "struct-limit", "struct-strings", "struct-edge", "struct-hyp", "malformed"):
         return _oracle_struct(case)
     if k == "altloc":
         return _oracle_altloc(case)
@@ -2292,6 +2515,8 @@ def _oracle_dispatch(case):
         return _oracle_large(case)
     if k == "boxes":
         return _oracle_boxes(case)
+    if k == "symmetry":
+        return _oracle_symmetry(case)
     return []
 
 
